@@ -60,6 +60,9 @@ pub fn case(tape: &[u32]) -> CaseOutcome {
                 LibRun::Panic(p) => {
                     return CaseOutcome::Fail(Failure::new(format!("C02:{}:{}", mode, p.signature()), format!("{} execution panicked: {}", mode, p.message), d(json!({}))));
                 }
+                LibRun::PollBound(_) if !matches!(model.outcome, crate::interp::Outcome::Ok) => {
+                    report.counters.push(("inconclusive:poll-bound-next-to-failing-reference-run".into(), 1));
+                }
                 LibRun::PollBound(n) => {
                     return CaseOutcome::Fail(Failure::new(format!("C02:{}:poll-bound", mode), format!("{} execution polled {} times without finishing", mode, n), d(json!({}))));
                 }
